@@ -261,6 +261,11 @@ func (t *c12Tree) indexedPaths(o c12Obj) (paths []string, seg []int, lens []int)
 // directedOnce applies one directed mutation of one of three families; "" when the tree offers no site.
 func (gen *c12Gen) directedOnce(g *Rng, t *c12Tree) string {
 	switch k := g.Intn(100); {
+	case k < 8:
+		if d := gen.directedEmptyFile(g, t); d != "" {
+			return d
+		}
+		return gen.directedBoundary(g, t)
 	case k < 50:
 		return gen.directedBoundary(g, t)
 	case k < 75:
@@ -274,6 +279,32 @@ func (gen *c12Gen) directedOnce(g *Rng, t *c12Tree) string {
 		}
 		return gen.directedBoundary(g, t)
 	}
+}
+
+// ---------- family 4: a file that a directive names is empty (or holds no document) ----------
+//
+// Readers index content[0], take the first document, or hand an empty node list on: every file-valued
+// directive (crds, configurations, openapi.path, replacements[].path, patches[].path, transformers,
+// patchesStrategicMerge, resources, generator files / envs) gets a file with nothing in it.
+func (gen *c12Gen) directedEmptyFile(g *Rng, t *c12Tree) string {
+	var cands []*c12File
+	for _, f := range t.files {
+		if f.role != "kustomization" {
+			cands = append(cands, f)
+		}
+	}
+	if len(cands) == 0 {
+		return ""
+	}
+	f := cands[g.Intn(len(cands))]
+	// config-like files are rarer: prefer them
+	for tries := 0; tries < 3 && f.role == "resources"; tries++ {
+		f = cands[g.Intn(len(cands))]
+	}
+	content := g.Pick([]string{"", "", "\n", " ", "---\n", "# nothing\n", "null\n", "~\n", "[]\n", "{}\n", "---\n---\n", "\xef\xbb\xbf", "...\n"})
+	f.docs = nil
+	f.raw = []byte(content)
+	return fmt.Sprintf("directed:emptyfile %s %q @%s:", f.role, content, f.path)
 }
 
 // ---------- family 2: delete exactly ONE key of a small identity-bearing mapping ----------
